@@ -1,7 +1,7 @@
 (** Text utilities mirroring the Rust [str] methods the code uses.
     A string is a list of Unicode scalar values ([N]). *)
 From Vib Require Import Model.Base.
-Open Scope N_scope.
+Local Open Scope N_scope.
 
 (** [str::split(c)]: always at least one piece. *)
 Fixpoint split_on (c : N) (s : str) : list str :=
